@@ -1,6 +1,7 @@
 package roverif
 
 import (
+	"context"
 	"fmt"
 
 	"github.com/samber/ro"
@@ -79,6 +80,9 @@ func init() {
 			sc.SetInt("slow", g.PickInt(0, 1, 2, 3))
 			sc.SetInt("stall", g.Intn(2))
 			if g.Bool(0.3) {
+				sc.SetInt("deadctx", g.Range(1, 255))
+			}
+			if g.Bool(0.3) {
 				addStage(g, sc, g.Pick("Map", "Filter", "Scan", "Tap"), n, "sync")
 			}
 			sc.SetInt("raw", g.Intn(2))
@@ -89,14 +93,27 @@ func init() {
 			src := e.NewSrc(sc.Sources[0])
 			capN := sc.Int("cap", 1)
 			var o ro.Observable[int]
+			in := src.Obs()
+			if mask := sc.Int("deadctx", 0); mask != 0 {
+				// some values travel with a context that is already cancelled (a per-item timeout upstream
+				// that expired): the hand-off queue carries them like any other value
+				in = ro.ContextMapI[int](func(ctx context.Context, i int64) context.Context {
+					if mask>>uint(i)&1 == 1 {
+						c, cancel := context.WithCancel(ctx)
+						cancel()
+						return c
+					}
+					return ctx
+				})(in)
+			}
 			if sc.Sub == "ObserveOn" {
-				o = ro.ObserveOn[int](capN)(src.Obs())
+				o = ro.ObserveOn[int](capN)(in)
 			} else {
-				o = ro.SubscribeOn[int](capN)(src.Obs())
+				o = ro.SubscribeOn[int](capN)(in)
 			}
 			// the extra stage (if any) is 1:1 or filtering and synchronous: put it upstream of the hand-off
 			if len(sc.Stages) > 0 {
-				up := e.BuildChain(src.Obs(), sc.Stages, func(int) ro.Observable[int] { return ro.Empty[int]() })
+				up := e.BuildChain(in, sc.Stages, func(int) ro.Observable[int] { return ro.Empty[int]() })
 				if sc.Sub == "ObserveOn" {
 					o = ro.ObserveOn[int](capN)(up)
 				} else {
